@@ -65,7 +65,8 @@ PROPS = {
                 "computed expressions also under !wait-optional tags) and "
                 "misbehaving steps (crash, schema-violating output, undeclared output id, schema mismatch, write-refusing connection); each case runs "
                 "in a worker process; oracle = the worker neither dies nor reports a recovered panic and answers; a returned output must not be one "
-                "whose expression the reference evaluates to a fault. non-trivial = reference predicts >=1 fault or >=1 misbehaving step",
+                "whose expression the reference evaluates to a fault. One case in 40 is a burst: a loop of 32-64 items that all fail at once under "
+                "a parallelism of 8-32. non-trivial = reference predicts >=1 fault or >=1 misbehaving step",
         "quick": {"cases": 3600, "shards": 12, "shrinktime": "30s"},
         "thorough": {"cases": 80000, "shards": 16, "shrinktime": "120s", "timeout_s": 3300},
         "assumptions": RUN_ASSUME,
@@ -117,7 +118,8 @@ PROPS = {
         "rule": "rapid-generated programs are prepared, then prepared again twice, under 3 generated permutations of steps / outputs / input "
                 "fields / map keys / one-of options, and under a consistent renaming of all steps; oracle = identical verdict and identical "
                 "canonical form (sorted nodes and typed edges, output schemas and namespaces rendered structurally with random inferred ids "
-                "removed, names mapped back). non-trivial = >=3 steps or a tag; each (program, transformation) pair counts",
+                "removed, names mapped back); and one single-point corruption of the program is prepared four times (once permuted): "
+                "the verdict on an invalid text must not change either. non-trivial = >=3 steps or a tag; each (program, transformation) pair counts",
         "quick": {"cases": 900, "shards": 12, "shrinktime": "30s"},
         "thorough": {"cases": 15000, "shards": 16, "shrinktime": "120s", "timeout_s": 3300},
         "assumptions": RUN_ASSUME,
@@ -129,7 +131,9 @@ PROPS = {
                 "non-scalar keys, anchors/aliases, merge keys, every engine tag on every node kind, odd expressions; delete; duplicate; 200-deep "
                 "nest); (b) 1-4 byte-level mutations of a valid workflow; (c) random text over a YAML-ish alphabet; (d) file trees of foreach "
                 "references (chains, shared, missing, self, mutual, nested directories, .., absolute, empty, garbage, non-string kind/workflow) with "
-                "the expected verdict; (e) corrupted / random input documents. oracle = Parse and Run return (value or error) within the watchdog, no "
+                "the expected verdict; (e) corrupted / random input documents; (f) further file-tree kinds: a sub-workflow file named like the caller's cache key "
+                "(workflow / config / input), a sub-workflow without a success output (four variants, depth 0-1); (g) the text of one `default:` at any "
+                "depth replaced by malformed / ill-typed JSON with an input document that makes the schema apply it. oracle = Parse and Run return (value or error) within the watchdog, no "
                 "panic, no process death; file trees: accepted iff every referenced file exists and parses. non-trivial = the corrupted text differs "
                 "from its seed / is non-empty",
         "quick": {"cases": 6000, "shards": 12, "shrinktime": "30s"},
@@ -145,7 +149,8 @@ PROPS = {
                 "fields with defaults) with documents that are valid (optionals omitted, values given typed or - via the YAML decoding path of "
                 "engine.Workflow.Run - as strings) or invalid by exactly one mutation (missing required, wrong type, bound violation, unknown field, "
                 "nested wrong type / unknown field); programs whose 1-4 steps and output consume the fields; 0-3 other valid documents are executed on the same prepared workflow "
-                "before the observed run. oracle: invalid => Execute errors and "
+                "before the observed run. Field types include pattern and enum; a document may be no map at all (schemas with several fields); input "
+                "references also sit behind !wait-optional / !soft-optional. oracle: invalid => Execute errors and "
                 "the scripted deployer saw no run-phase activity at all; valid => every logged plugin input and the returned output equal the "
                 "harness's own normalisation of the document. non-trivial = invalid document, or schema with a default or nested object",
         "quick": {"cases": 3600, "shards": 12, "shrinktime": "30s"},
@@ -219,7 +224,9 @@ PROPS = {
                 "input list, division by the input integer - also as an output field) fails for that run's input only; optionally the text is prepared again between rounds. Plugin keys carry "
                 "the run key, so every run has its own behaviours and its own slice of the plugin log. oracle: every uncancelled run returns what "
                 "the reference predicts for an isolated first run with its input; its slice of the log satisfies C02's dataflow check (no foreign or "
-                "stale data); the DAG dumps of both prepared workflows are unchanged after all runs. non-trivial = two runs overlap in time or a "
+                "stale data); the DAG dumps of both prepared workflows are unchanged after all runs. A third of the histories "
+                "runs under 1-2 held schedule points (half of them where a run evaluates expressions); a sixth is the motif 'one-of resolved through different "
+                "alternatives in overlapping runs' with every evaluation stretched by 3-10 ms. non-trivial = two runs overlap in time or a "
                 "run follows a failed / cancelled one",
         "quick": {"cases": 720, "shards": 12, "shrinktime": "40s"},
         "thorough": {"cases": 12000, "shards": 16, "shrinktime": "180s", "timeout_s": 3300},
@@ -282,7 +289,8 @@ PROPS = {
                 "optionally an explicit outputSchema with generated error flags. Each tree is run through six configurations (Parse+Run with "
                 "an absolute context, RunWorkflow, relative context with the working directory elsewhere or inside the context, in-memory file "
                 "cache with and without the sub-workflows preloaded), through direct Executor.Prepare+Execute of the same texts, and through "
-                "cmd/arcaflow's runWorkflow (worker built from package main). oracle: all give the same output id / data / failure, equal to the "
+                "cmd/arcaflow's runWorkflow (worker built from package main); further variants: the working directory changes after the context was "
+                "loaded, and the engine object first parses and runs another tree with the same file names. oracle: all give the same output id / data / failure, equal to the "
                 "reference; outputIsError == declared flag (explicit schema) or id == \"error\" (inferred); exit code 0 / 2 / 3 as documented. "
                 "non-trivial = depth >= 2, an output named error, or an explicit schema",
         "quick": {"cases": 480, "shards": 12, "shrinktime": "30s"},
